@@ -69,7 +69,11 @@ func parseParseContext(stmtNode ast.StmtNode) *types.ParseContext {
 		parserCtx.UpdateStmt = stmt
 		parserCtx.ExecutorType = types.UpdateExecutor
 	case *ast.SelectStmt:
-		if stmt.LockInfo != nil && stmt.LockInfo.LockType == ast.SelectLockForUpdate {
+		// FOR UPDATE, also with a wait option (NOWAIT, WAIT n, SKIP LOCKED): a locking read all the same
+		if stmt.LockInfo != nil && (stmt.LockInfo.LockType == ast.SelectLockForUpdate ||
+			stmt.LockInfo.LockType == ast.SelectLockForUpdateNoWait ||
+			stmt.LockInfo.LockType == ast.SelectLockForUpdateWaitN ||
+			stmt.LockInfo.LockType == ast.SelectLockForUpdateSkipLocked) {
 			parserCtx.SQLType = types.SQLTypeSelectForUpdate
 			parserCtx.SelectStmt = stmt
 			parserCtx.ExecutorType = types.SelectForUpdateExecutor
